@@ -57,7 +57,8 @@ SELECTORS = [
     ("r.s in ['a', 'x']", "in-list", "both"), ("r.n not in [1, 2]", "notin-list", "both"),
     ("'x' in r.sl", "in-field-list", "both"), ("'b' in r.s", "in-field-text", "both"),
     # helper functions
-    ("field_contains(r, ['s'], ['x'])", "helper-contains", "both"), ("lower(r.s) == 'a'", "helper-lower", "both"),
+    ("field_contains(r, ['s'], ['x'])", "helper-contains", "both"),
+    ("field_contains(r, ['sl', 's'], ['x'], nocase=False)", "helper-contains-list-field", "both"), ("lower(r.s) == 'a'", "helper-lower", "both"),
     ("upper(r.s) == 'A'", "helper-upper", "both"), ("field_equals(r, ['s', 'other'], ['a', 'z'])", "helper-equals", "both"),
     ("field_regex(r, ['s'], '^a')", "helper-regex", "both"), ("has_field(r, 'm')", "helper-has-field", "both"),
     ("name(r) == 'c10/b'", "helper-name", "both"), ("'c10/a' in names(r)", "helper-names", "both"),
